@@ -516,6 +516,19 @@ def personalize_and_estimate(env, model, data, query):
         try:
             with core.quiet():
                 arr = model.estimate({i: query[i]}, ip)[i]
+                # the same request with the ages as a float64 array (what `np.linspace` / a DataFrame column give), twice:
+                # same answer, and the caller's array is left as it was
+                np = env["np"]
+                ages_arr = np.array(query[i], dtype=np.float64)
+                keep = ages_arr.copy()
+                a1 = model.estimate({i: ages_arr}, ip)[i]
+                a2 = model.estimate({i: ages_arr}, ip)[i]
+            if not (np.array_equal(ages_arr, keep)):
+                estd[i] = "err:other:caller-ages-modified"
+                continue
+            if not (np.array_equal(a1, arr, equal_nan=True) and np.array_equal(a2, arr, equal_nan=True)):
+                estd[i] = "err:other:array-ages-differ-from-list-ages"
+                continue
             if tuple(arr.shape) != (len(query[i]), 1) or str(arr.dtype) != "float32":
                 estd[i] = f"err:other:shape{tuple(arr.shape)}/{arr.dtype}"
             else:
